@@ -110,6 +110,11 @@ func runCase(idx int, c *caseDesc) {
 	}()
 	for i, o := range c.Ops {
 		clk.AddMs(uint64(i % 7))
+		if i%11 == 10 {
+			// the wall clock is stepped back a little (NTP correction) while entries are in flight: decisions and the
+			// in-flight figure do not depend on time
+			clk.SetMs(clk.Ms() - uint64(1+i%40))
+		}
 		switch o.Kind {
 		case "exit":
 			if len(lives) == 0 {
@@ -217,7 +222,7 @@ func main() {
 	sx.Quiet()
 	run = vk.Start("C04", "seq")
 	defer run.Finish()
-	run.Rule("case = (1-3 resources each with 0-3 isolation rules, thresholds incl. 0, 2^31, 2^32-1; 20-120 enter/exit ops (some entries passed because a rule-check slot panicked: uncounted), random exit order, batches from {0,1,2,N-1,N,N+1,2^31,2^32-1}); every decision, triggered rule/value and the gauge are compared with a 64-bit semaphore model; non-trivial = trace has a pass and a block; distinct by (trace, thresholds).")
+	run.Rule("case = (1-3 resources each with 0-3 isolation rules, thresholds incl. 0, 2^31, 2^32-1; 20-120 enter/exit ops (some entries passed because a rule-check slot panicked: uncounted), random exit order, occasional backward clock steps, batches from {0,1,2,N-1,N,N+1,2^31,2^32-1}); every decision, triggered rule/value and the gauge are compared with a 64-bit semaphore model; non-trivial = trace has a pass and a block; distinct by (trace, thresholds).")
 	run.Assume("sequential callers (GOMAXPROCS=1); the k-concurrent clause is decided by the coop engine")
 	clk = vclock.New(1700000000000)
 	faultyChain = sentinel.BuildDefaultSlotChain()
